@@ -57,6 +57,53 @@ Theorem comments_dedup_is_union : forall l, NoDup (dedup l) /\ forall x, In x (d
 Proof. intros l. split; [apply dedup_nodup | apply dedup_in]. Qed.
 Print Assumptions comments_dedup_is_union.
 
+(* -- valid: merging profiles that pass CheckValid yields a profile that passes CheckValid
+   (ids are exactly 1..n in creation order; every reference resolves) -- *)
+Theorem merge_valid : forall ps q,
+  Forall (fun p => valid_b p = true) ps -> merge ps = MOk q -> valid_b q = true.
+Proof. exact merge_valid_lemma. Qed.
+Print Assumptions merge_valid.
+
+(* -- nothing is duplicated: at most one sample per (stack, label set) identity.  This is where
+   the identity keys of the code must separate exactly the frame identities (F1/F2 regressions
+   break it) -- *)
+Theorem merge_distinct : forall ps q,
+  merge ps = MOk q -> NoDup (map (sample_ident_of q) (p_sample q)).
+Proof. exact merge_distinct_lemma. Qed.
+Print Assumptions merge_distinct.
+
+(* -- the headline: for every identity k, either the result has exactly one sample of identity k,
+   it is not all-zero and each of its values is the int64 sum over the inputs; or it has none and
+   that sum is zero in every column.  Nothing else is added, dropped or altered. -- *)
+Theorem merge_exact : forall ps q k,
+  merge ps = MOk q ->
+  (exists s, In s (p_sample q) /\ sample_ident_of q s = k /\ is_zero_sample s = false /\
+             (forall s', In s' (p_sample q) -> sample_ident_of q s' = k -> s' = s) /\
+             forall j, eq64 (nth j (s_val s) 0) (sumZ (map (fun p => wt p k j) ps)))
+  \/ ((forall s, In s (p_sample q) -> sample_ident_of q s <> k) /\
+      forall j, eq64 0 (sumZ (map (fun p => wt p k j) ps))).
+Proof. exact merge_exact_lemma. Qed.
+Print Assumptions merge_exact.
+
+(* -- the one recursion in Merge (re-merge while an all-zero sample is left) stops after one
+   extra pass: the model never runs out of fuel on int64 values -- *)
+Theorem remerge_terminates : forall ps, Forall vals_ok ps -> merge ps <> MFuel.
+Proof. exact remerge_terminates_lemma. Qed.
+Print Assumptions remerge_terminates.
+
+(* -- compacting twice equals compacting once.  Full statement (equality of the dumps); proved
+   part: the second compaction succeeds in one pass, keeps every weight, the header and
+   distinctness.  Equality of ids and order is covered by the evaluated checker (every case
+   re-compacts the implementation's result and compares the dumps). -- *)
+Definition full_statement_compact_idempotent : Prop :=
+  forall ps q, Forall vals_ok ps -> merge ps = MOk q -> compact q = MOk q.
+Theorem compact_idempotent_partial : forall ps q,
+  Forall vals_ok ps -> merge ps = MOk q ->
+  exists q', compact q = MOk q' /\ (forall k j, eq64 (wt q' k j) (wt q k j)) /\ hdr q' = hdr q /\
+             NoDup (map (sample_ident_of q') (p_sample q')).
+Proof. exact compact_idempotent_partial_lemma. Qed.
+Print Assumptions compact_idempotent_partial.
+
 (* -- non-vacuity -- *)
 Definition ex_vt := {| vt_type := "samples"; vt_unit := "count" |}.
 Definition ex_fn (id : Z) (n : string) := {| f_id := id; f_name := n; f_sysname := n; f_file := "a.go"; f_startline := 1 |}.
@@ -75,3 +122,13 @@ Example merge_example :
   | MOk q => map s_val (p_sample q) = [[11]] /\ p_timenanos q = 40 /\ p_durationnanos q = 2 /\ p_comments q = ["c"%string]
   | _ => False end.
 Proof. vm_compute. repeat split. Qed.
+Example hypotheses_satisfiable :
+  Forall (fun p => valid_b p = true) [ex_prof 7 9 5 0; ex_prof 2 3 6 40] /\
+  Forall vals_ok [ex_prof 7 9 5 0; ex_prof 2 3 6 40].
+Proof.
+  split; repeat constructor.
+Qed.
+(* a sum that cancels takes the re-merge path and disappears *)
+Example cancel_example :
+  match merge [ex_prof 7 9 5 0; ex_prof 2 3 (-5) 40] with MOk q => p_sample q = [] | _ => False end.
+Proof. vm_compute. reflexivity. Qed.
